@@ -17,7 +17,8 @@ def check(ctx):
     ctx.run(S.rule_stale_table, "C05.T1", rr)
     ctx.notes["exhaustive"] = True
     ctx.run(S.rule_order_only, "C05.T1", rr)
-    from .c18 import rule_normaliser_frames
+    from .c18 import rule_normaliser_frames, rule_store_time_frames
+    ctx.run(rule_store_time_frames, "C05.T1")
     ctx.run(rule_normaliser_frames, "C05.T1")
     ctx.run(W.rule_edge_effect_table, "C05.W2", rr, rid_fresh="C05.W1")
     ctx.run(W.rule_two_entry_chains, "C05.W2", rr)
